@@ -921,7 +921,7 @@ Lemma p_balanced_gen ops : forall s d, p_depth s = d -> (d = 0 -> p_fn s = None)
 Proof.
   induction ops as [|o ops IH]; intros s d Hd Hf Hb; cbn in *.
   - apply Nat.eqb_eq in Hb. subst. auto.
-  - destruct o as [pool m|]; apply andb_prop in Hb; destruct Hb as (Hb1 & Hb2); apply Nat.eqb_eq in Hb1.
+  - destruct o as [pool w m|]; apply andb_prop in Hb; destruct Hb as (Hb1 & Hb2); apply Nat.eqb_eq in Hb1.
     + apply (IH _ 1); cbn; auto; [lia|discriminate].
     + apply (IH _ 0); cbn; auto. lia.
 Qed.
@@ -931,8 +931,8 @@ Theorem polling_balanced ops : balanced 0 ops = true ->
 Proof. intros H. apply (p_balanced_gen ops p_init 0); auto. Qed.
 
 (* while enabled, a polling function is installed exactly when the handler method needs one *)
-Theorem polling_enabled_iff pool m :
-  p_fn (p_run [PStart pool m]) = match m_method m with YieldWhile => None | _ => Some (single_threaded pool m) end.
+Theorem polling_enabled_iff pool w m :
+  p_fn (p_run [PStart pool w m]) = match m_method m with YieldWhile => None | _ => Some (single_thread_mode pool w m) end.
 Proof. destruct m as [[| | |] a b c]; reflexivity. Qed.
 
 (* ------------------------------------------------------------------ compact_vectors in place *)
